@@ -166,8 +166,11 @@ impl CsdV1 {
 
     /// Returns the card capacity in 512-byte blocks
     pub fn card_capacity_blocks(&self) -> u32 {
-        let multiplier = self.device_size_multiplier() + self.read_block_length() - 7;
-        (self.device_size() + 1) << multiplier
+        // The register comes from the card and is only CRC-protected when CRC
+        // mode is on: derive the block count from the byte count, which cannot
+        // underflow for small READ_BL_LEN values (the size fits 32 bits:
+        // at most 4096 << 24 bytes = 2^27 blocks).
+        (self.card_capacity_bytes() / 512) as u32
     }
 }
 
